@@ -6,6 +6,7 @@ from .. import hir
 from ..engine import AnchorMissing
 from ..trav import AdtGraph, Traversal, overrides_of, core_type
 from .. import travrules as T
+from .. import xformrules as X
 
 OPV = "OperationTransformVisitor"
 BTV = "BlockTransformVisitor"
@@ -240,6 +241,38 @@ def rule_block_driver(check):
     # the operation visitor stops at nested blocks and only there
     stop = [g for g in overrides_of(prog, OPV) if g.name == "visit_mut_block_stmt"]
     check.expect(len(stop) == 1, R, R + "/opv-stops-at-blocks", hir.loc(stop[0].rec) if stop else "-", "operation visitor leaves nested blocks to the driver (each block gets its own temporaries)", "OperationTransformVisitor no longer stops at nested blocks")
+
+
+def rule_pipeline(check):
+    """PIPELINE (C04): every parsed program is handed to the block driver"""
+    R = "PIPELINE"
+    check.rule(R, "on the way from rewrite_js to the block driver nothing decides whether a program is instrumented: the site that runs BlockTransformVisitor over the program, and every call leading to it from rewrite_js, is unconditional apart from error propagation (`?`, and_then on the parse result). A pre-check - textual or structural - that skips the visit leaves enabled operations uninstrumented in whatever it misjudges")
+    prog = check.prog
+    rj = prog.fn("rewriter::rewrite_js")
+    sites = []
+    for g in prog.flat(rj, 3):
+        for x in g.nodes():
+            if x.get("k") == "MethodCall" and x["method"] in ("visit_mut_with", "visit_mut_children_with") and x["args"] and "BlockTransformVisitor" in (hir.peel(x["args"][0]).get("ty") or "") and "Program" in (hir.peel(x["recv"]).get("ty") or ""):
+                sites.append((g, x))
+    check.floor(R, "sites that run the block driver over the program", len(sites), 1)
+    for g, x in sites:
+        cur_f, cur_n = g, x
+        extra = []
+        for _ in range(5):
+            for c in cur_f.conds_at(cur_n):
+                if c["t"] in ("closure", "try"):
+                    continue
+                extra.append(hir.cond_str(c))
+            if cur_f is rj:
+                break
+            parent = cur_f
+            while parent.rec.get("parent_fn") and prog.by_def.get(parent.rec["parent_fn"]) is not None:
+                parent = prog.by_def[parent.rec["parent_fn"]]
+            up = [(cf, c) for cf, c in prog.sites_calling(parent) if hir.is_call(c)]
+            if len(up) != 1:
+                break
+            cur_f, cur_n = up[0]
+        check.expect(not extra, R, R + "/unconditional", hir.loc(x), "the block driver runs over every parsed program", "whether a program is instrumented at all depends on [%s]: enabled operations in a file this test misjudges stay uninstrumented" % "; ".join(extra))
 
 
 def rule_arrow_block(check):
@@ -852,10 +885,12 @@ def run(check):
     check.guarded("TRAV-COVER", lambda c: T.run_cover(c, "TRAV-COVER", OPV, {T.EXPR}, [T.excl_delete, T.excl_tpl_literal, T.excl_arrow], {"visit_mut_expr", "visit_mut_block_stmt"}, block_override_ok=block_ok))
     check.guarded("TRAV-COVER", lambda c: T.run_cover(c, "TRAV-COVER", BTV, {T.BLOCK}, [T.excl_cancelled], {"visit_mut_block_stmt"}))
     check.guarded("APPLY-ARGS", rule_apply_args)
-    check.guarded("TRAV-COVER", lambda c: T.run_cover(c, "TRAV-COVER", "OptChainVisitor", {T.EXPR}, [excl_optchain_lowered], {"visit_mut_expr"}))
+    check.guarded("TRAV-COVER", lambda c: T.run_cover(c, "TRAV-COVER", "OptChainVisitor", {T.EXPR}, [excl_optchain_lowered, excl_optchain_operands], {"visit_mut_expr"}))
+    check.guarded("OPTCHAIN-SPINE", X.rule_optchain_spine)
     check.guarded("DEFAULT-VISITOR", lambda c: T.rule_default_visitor(c, "VisitMut", {T.EXPR, T.BLOCK}))
     check.guarded("TRAV-DISPATCH", rule_dispatch)
     check.guarded("BLOCK-DRIVER", rule_block_driver)
+    check.guarded("PIPELINE", rule_pipeline)
     check.guarded("ARROW-BLOCK", rule_arrow_block)
     check.guarded("RECEIVER-TABLE", rule_receiver_table)
     # an operator listed in the configuration is reported as enabled whatever else the configuration lists
@@ -876,6 +911,15 @@ def run(check):
             "code generated by swc's parser for exotic syntax",
         ],
     }
+
+
+def excl_optchain_operands(tr, path, missing):
+    # The lowering visitor works on the chain itself. Call arguments and computed keys are expressions
+    # of their own; the operation visitor visits them after the lowering (OPTCHAIN-SPINE checks that it
+    # does, and that the lowering visitor stays out of them).
+    if tr.fn.name in ("visit_mut_expr_or_spreads", "visit_mut_expr_or_spread", "visit_mut_computed_prop_name") and not path.effects:
+        return "operands of the chain (arguments, computed keys) are left to the operation visitor, which visits the children of the lowered expression"
+    return None
 
 
 def excl_optchain_lowered(tr, path, missing):
